@@ -12,11 +12,6 @@ C[E + "__Integer.__integer"] = dict(params={"start": "int", "end": "int", "is_ex
 C[E + "Date.__date_pre"] = dict(params={"format": "text"}, raises={}, requires="format in DATE_FORMATS()",
                                 returns="opaque_other", assumed=True, concrete_native=True)
 
-# union of two non-negated classes / a class and a one-character string: a non-negated class, no exception (the class
-# algebra itself is C06/C07's subject: its interval core is proved in classes_iv.py, its text layer bounded-checked in B2)
-C["pregex.core.classes.__Class.__or__"] = dict(params={"self": ["Class"], "pre": ["Class", "str1"]}, raises={},
-                                              returns="opaque_class", assumed=True)
-
 ALLT = ["Alternation", "Assertion", "Class", "Empty", "Group", "Other", "Quantifier", "Token"]
 INTB = "(INT(x) or BOOLV(x))"     # what isinstance(x, int) accepts
 
@@ -34,7 +29,7 @@ C[E + "Numeral.__init__"] = dict(
             "InvalidArgumentValueException": "INT(base) and (base < 2 or base > 16 or (INT(n_min) and (n_min < 0 or "
                                              "(INT(n_max) and (n_max < 0 or n_max < n_min)))))"},
     ensures="True", returns="opaque_init", lists="concrete",
-    loops={1: {"inv": "PREGEX(pre) and TYPE(pre) == 'Class'"}}, frame=FR)
+    loops={1: {"inv": "ISCLS(pre) and not NEGATED(pre)"}}, frame=FR)
 
 C[E + "__Decimal.__init__"] = dict(
     params={"self": "newobj", "integer_part": ALLT, "no_integer_part": ["none", "Assertion", "Group"],
